@@ -235,7 +235,7 @@ func cgUpdate(f *ast.File, consts map[string]*ast.BasicLit) (steps string, guard
 	for k, t := range sts {
 		st := fd.Body.List[k]
 		switch {
-		case re(`if (`+loc+`) := v0\.checkCoordinate\(v2\); (`+loc+`) != nil \{ return nil, (`+loc+`) \}`).MatchString(t):
+		case re(`if (` + loc + `) := v0\.checkCoordinate\(v2\); (` + loc + `) != nil \{ return nil, (` + loc + `) \}`).MatchString(t):
 			out = append(out, "checkCoordinateOrReturn")
 		case strings.HasPrefix(t, "if v3 ") || strings.HasPrefix(t, "if 0 ") || strings.HasPrefix(t, "if ("):
 			is, ok := st.(*ast.IfStmt)
@@ -287,7 +287,7 @@ func cgUpdate(f *ast.File, consts map[string]*ast.BasicLit) (steps string, guard
 			}
 			guard = fmt.Sprintf("{ lo := %s, loStrict := %v, hi := %s, hiStrict := %v }", lo, loStrict, hi, hiStrict)
 			out = append(out, "rttRangeOrReturn")
-		case re(`(`+loc+`) := v0\.latencyFilter\(v1, v3\.Seconds\(\)\)`).MatchString(t):
+		case re(`(` + loc + `) := v0\.latencyFilter\(v1, v3\.Seconds\(\)\)`).MatchString(t):
 			rttVar = re(`(` + loc + `) := .*`).FindStringSubmatch(t)[1]
 			out = append(out, "latencyFilter")
 		case rttVar != "" && t == "v0.updateVivaldi(v2, "+rttVar+")":
@@ -366,7 +366,7 @@ func cgPing(repo string) (string, error) {
 		case re(loc + ` := v3\[0\]`).MatchString(t):
 		case regexp.MustCompile(`^if (`+loc+` != `+pv.Value+`|`+pv.Value+` != `+loc+`) \{`).MatchString(t) && isReturnIf():
 			out = append(out, "versionReturn")
-		case re(loc+` := bytes\.NewReader\(v3\[1:\]\)`).MatchString(t), re(loc+` := codec\.NewDecoder\(`+loc+`, &codec\.MsgpackHandle\{\}\)`).MatchString(t):
+		case re(loc + ` := bytes\.NewReader\(v3\[1:\]\)`).MatchString(t), re(loc + ` := codec\.NewDecoder\(` + loc + `, &codec\.MsgpackHandle\{\}\)`).MatchString(t):
 		case re(`var (` + loc + `) coordinate\.Coordinate`).MatchString(t):
 			coordVar = re(`var (` + loc + `) coordinate\.Coordinate`).FindStringSubmatch(t)[1]
 		case coordVar != "" && regexp.MustCompile(`^if `+loc+` := `+loc+`\.Decode\(&`+coordVar+`\); `+loc+` != nil \{`).MatchString(t) && isReturnIf():
